@@ -58,7 +58,7 @@ struct Exec {
     std::vector<long> pending_free_checks; void check_pending_frees();
     bool nt_last_illegal = false; long fd_bytes[8];
     std::deque<UBox> boxes;
-    double tick_armed_at = 0; long ticks_seen = 0; bool tick_ever = false; long tick_grace = 1; double prev_dispatch_began = 0; int last_eagain_step = -1; int replacing_slot = -1; long tick_base = 0; int gen_at_stop = 0; bool resub_owned_ok = true; /* re-subscription over subscriptions owning their user data / a duplicated topic used to be excluded: the defects behind that exclusion are repaired */ std::map<long, std::set<long>> sub_tokens; std::map<long, int> token_prio; bool retire_oneshot_by_token(Inst *x, long token); void tick_rearm(double armed_at);
+    double tick_armed_at = 0; long ticks_seen = 0; bool tick_ever = false; long tick_grace = 1; double prev_dispatch_began = 0; int last_eagain_step = -1; int replacing_slot = -1; long tick_base = 0; std::string modname[prog::MAX_MODS]; void choose_module_names(); int gen_at_stop = 0; bool resub_owned_ok = true; /* re-subscription over subscriptions owning their user data / a duplicated topic used to be excluded: the defects behind that exclusion are repaired */ std::map<long, std::set<long>> sub_tokens; std::map<long, int> token_prio; bool retire_oneshot_by_token(Inst *x, long token); void tick_rearm(double armed_at);
     bool nt_c01_accept = false, nt_c01_reject = false, nt_c02_shape = false, nt_c02_delivery = false;
     static void payload_free_hook(void *p);
     int model_send(Inst *S, Inst *direct, bool has_topic, const std::string &topic, long payload);
@@ -106,7 +106,7 @@ struct Exec {
     static const char *state_name(int s) {
         switch (s) { case M_MOD_IDLE: return "IDLE"; case M_MOD_RUNNING: return "RUNNING"; case M_MOD_PAUSED: return "PAUSED"; case M_MOD_STOPPED: return "STOPPED"; case M_MOD_ZOMBIE: return "ZOMBIE"; default: return "NONE"; }
     }
-    std::string iname(Inst *x) { if (!x) return "-"; return "m" + std::to_string(x->slot) + "#" + std::to_string(x->id); }
+    std::string iname(Inst *x) { if (!x) return "-"; return "m" + std::to_string(x->slot) + "#" + std::to_string(x->id); } // (trace label; the registration name is x->name)
 
     // implemented in exec_model.inc / exec_ops.inc / exec_cb.inc
     void observe_pre(Inst *start_cb_of = nullptr, Inst *stop_cb_of = nullptr);
